@@ -280,7 +280,7 @@ EvalMethod(t, env) ==     \* t = call whose func is attr
            SeqOp(m, Eval(objt, env), args, t.p, kwv, env)
        ELSE LET ov == Eval(objt, env) IN
            IF Bad(ov) THEN ov
-           ELSE IF ov.t # "obj" THEN Unm("method-on-nonobject")
+           ELSE IF ov.t # "obj" THEN Err("AttributeError")      \* ints, tuples, ... have none of the model's methods
            ELSE IF IndexOf(ov.ks, m) = 0 THEN Err("AttributeError")
            ELSE LET base == ov.e[IndexOf(ov.ks, m)]
                     avs == [i \in 1..Len(args) |-> Eval(args[i], env)]
